@@ -55,8 +55,18 @@ PickOther ==
         /\ M' = Root(<<"x", "y">>, <<>>, MapOf({Class(<<"A", a2>>, <<>>, MapOf({Field(<<"f", "f2">>, "[[LA;", <<>>)}))}))
         /\ order' = o
     /\ phase' = "case"
+(* mapped classes whose names have characters of more than one byte, at the end of the name and inside it, in field and method *)
+(* descriptors (seed C08-10: a scanner that mixes character counts and byte positions)                                        *)
+PickUni ==
+    /\ phase = "start"
+    /\ \E o \in {<<"y", "x">>, <<"x", "y">>} :
+        /\ M' = Root(<<"x", "y">>, <<>>, MapOf({
+                    Class(<<"é/A", "b/ü">>, <<>>, MapOf({Field(<<"f", "f2">>, "[Lé/A;", <<>>), Field(<<"g", "g2">>, "Lnet/é;", <<>>)})),
+                    Class(<<"net/é", "n/e">>, <<>>, MapOf({Method(<<"m", "m2">>, "(Lé/A;Lnet/é;)Lé/A;", <<>>, <<>>)}))}))
+        /\ order' = o
+    /\ phase' = "case"
 
-Next == PickShape \/ PickRest \/ PickOther
+Next == PickShape \/ PickRest \/ PickOther \/ PickUni
 Spec == Init /\ [][Next]_vars
 
 InvLaw == phase = "case" => ReorderLaw(M, order)
